@@ -119,6 +119,46 @@ pub fn run(run: &mut Run) -> PResult {
     run.assume("strength order derived from the rules of poker; model self-checked against published class and frequency counts");
 
     super::regress::replay_dir(run, "C01", check_case)?;
+    if !run.is_twin() {
+        // ranking must be a function of the hand alone: call sequences over neighbour hands
+        super::multi::purity::<5, super::multi::H5>(run, "C01.sequence", super::multi::Mode::Value)?;
+        // every ordered pair of class representatives back to back (7,462 classes, two suit/slot
+        // arrangements each): closes "the value does not depend on the previous call" for every
+        // pair of rank patterns
+        let t = poker::tables();
+        let mut items: Vec<([u32; 5], u16)> = Vec::new();
+        for v in 1..=7462u16 {
+            let w = words_of_ci(&t.rep[v as usize]);
+            items.push((w, v));
+            let mut sh = [card::shift(w[4]), card::shift(w[3]), card::shift(w[2]), card::shift(w[1]), card::shift(w[0])];
+            if v % 2 == 0 {
+                sh.swap(0, 3);
+            }
+            items.push((sh, v));
+        }
+        let n = items.len() as u64;
+        let hit = engine::ordered_pairs(
+            &items,
+            &|a| {
+                std::hint::black_box(Five::from(a.0).hand_rank_value());
+            },
+            &|b| {
+                let f = Five::from(b.0);
+                let (v1, v2, v3) = (f.hand_rank_value(), f.hand_rank_value_validated(), ckc_rs::evaluate::five_cards(b.0));
+                if v1 == b.1 && v2 == b.1 && v3 == b.1 {
+                    Ok(())
+                } else {
+                    Err(format!("[{}] returned {} / {} / {} (hand_rank_value / validated / evaluate::five_cards), the strength ordinal is {}", card::render_hand(&b.0), v1, v2, v3, b.1))
+                }
+            },
+        );
+        run.generator("all ordered pairs of class representatives, ranked back to back", "exhaustive (histories of length 2)", Some(n * n), n * n, n * n - n, "items = one hand per strength class in two suit/slot arrangements; non-trivial = pairs of different items");
+        if let Some((a, b, m)) = hit {
+            let seq = vec![hand_json(&items[a].0), hand_json(&items[b].0)];
+            let sig = format!("{} ; {}", card::render_hand(&items[a].0), card::render_hand(&items[b].0));
+            run.violation("C01.sequence", &sig, json!({"size": 5, "sequence": seq}), &format!("after ranking [{}]: {}", card::render_hand(&items[a].0), m))?;
+        }
+    }
     let acc = par_tuples::<5, A>(
         52,
         true,
@@ -145,7 +185,10 @@ pub fn run(run: &mut Run) -> PResult {
                 _ => {
                     acc.fail = slow_subset(c, exp, &perms);
                     if acc.fail.is_none() {
-                        panic!("fast and slow paths disagree on {:?}", c);
+                        let msg = engine::unstable_message(&format!("five-card hand [{}]", card::render_hand(&w)), || {
+                            guard(|| perms.iter().all(|p| fast_all(engine::apply_perm(&w, p), exp) == 0)) == Ok(true)
+                        });
+                        acc.fail = Some(Fail { c: *c, perm: 0, entry: 0, expected: exp, observed: Err(msg) });
                     }
                     return false;
                 }
@@ -180,7 +223,10 @@ pub fn run(run: &mut Run) -> PResult {
             poker::class_text(t.keys[f.expected as usize - 1])
         );
         let sig = format!("{}", case["cards"].as_str().unwrap_or(""));
-        run.violation("C01.value", &sig, case, &msg)?;
+        match &f.observed {
+            Err(m) if m.contains("depends on something other than the input") => run.violation("C01.unstable", &sig, case, m)?,
+            _ => run.violation("C01.value", &sig, case, &msg)?,
+        }
     } else {
         run.generator("five-subsets x 120 orders x 6 entries", "exhaustive", Some(choose(52, 5) * 720), acc.evals, acc.subsets, "");
         run.class("route:flush-table", acc.route[0]);
@@ -272,7 +318,7 @@ fn pair_check(c1: &[u8; 5], c2: &[u8; 5], p1: usize, p2: usize, perms: &[[u8; 5]
 pub fn check_case(clause: &str, case: &Value) -> Result<(), String> {
     let t = poker::tables();
     match clause {
-        "C01.value" => {
+        "C01.value" | "C01.unstable" => {
             let ws = engine::parse_words(&case["words"])?;
             let a: [u32; 5] = arr(&ws)?;
             let cis = cis_of(&ws)?;
@@ -300,6 +346,7 @@ pub fn check_case(clause: &str, case: &Value) -> Result<(), String> {
             }
             Ok(())
         }
+        "C01.sequence" => super::multi::check_sequence_case(case, super::multi::Mode::Value),
         "C01.compare" => {
             let w1 = engine::parse_words(&case["first"]["words"])?;
             let w2 = engine::parse_words(&case["second"]["words"])?;
